@@ -103,6 +103,18 @@ func runC02() {
 	nShapes = scaled(nShapes)
 	// the directed async-commit recovery family (profile full): both arrival orders of the CheckSecondaryLocks answers
 	asyncRecoveryFamily(rnd.Fork(), 4)
+	for i := 0; i < 12; i++ {
+		// old transactions (family of c03.go) dying at a request of their Commit, mostly right after the acknowledgement
+		r := rnd.Fork()
+		s := agedShape(r, i)
+		cnt := probe(s, r.Fork())
+		for _, after := range []bool{false, true} {
+			if cnt > 0 {
+				c02Scenario(s, r.Intn(cnt), after, 0, r.Fork())
+			}
+		}
+		rec.Count("c02:family:aged")
+	}
 	for n := 0; n < nShapes; n++ {
 		r := rnd.Fork()
 		s := genShape(r)
